@@ -276,14 +276,14 @@ prog("sp_dual", """
 rel e(int,int) input; lat sp(int,int,dual_i32);
 sp(x,y,dual(1)) <-- e(x,y);
 sp(x,z,dual(undual(l) + 1)) <-- e(x,y), sp(y,z,l);
-""", "lat par life perm pack", bound=4)
+""", "lat par life perm pack mono", bound=4)
 
 prog("sp_weighted", """
 rel w(int,int,int) input; lat sp(int,int,dual_i32); rel near(int,int);
 sp(x,y,dual(c)) <-- w(x,y,c);
 sp(x,z,dual(c + undual(l))) <-- w(x,y,c), sp(y,z,l), if c + undual(l) < 12;
 near(x,y) <-- sp(x,y,l), if undual(l) <= 2;
-""", "lat par life", bound=3, dom=3)
+""", "lat par life mono", bound=3, dom=3)
 
 prog("longest_capped", """
 rel e(int,int) input; lat lp(int,max_i32); rel deep(int);
@@ -291,14 +291,14 @@ lp(x,0) <-- e(x,_);
 lp(y,0) <-- e(_,y);
 lp(y, min(l + 1, 5)) <-- e(x,y), lp(x,l);
 deep(x) <-- lp(x,l), if l >= 3;
-""", "lat par life", bound=4)
+""", "lat par life mono", bound=4)
 
 prog("set_reach", """
 rel e(int,int) input; lat rs(int,set_i32); rel has(int,int);
 rs(x, set1(y)) <-- e(x,y);
 rs(x, s) <-- e(x,y), rs(y,s);
 has(x,y) <-- rs(x,s), for y in 0..3, if sethas(s,y);
-""", "lat par life pack", bound=4)
+""", "lat par life pack mono", bound=4)
 
 prog("bset", """
 rel e(int,int) input; lat bs(int,bset2_i32); rel top(int); rel has1(int);
@@ -306,7 +306,7 @@ bs(x, bset1(y)) <-- e(x,y);
 bs(x, s) <-- e(x,y), bs(y,s);
 top(x) <-- bs(x,s), if bsettop(s);
 has1(x) <-- bs(x,s), if bsethas(s,1);
-""", "lat par", bound=4)
+""", "lat par mono life", bound=4)
 
 prog("cp", """
 rel a(int,int) input; rel cpy(int,int) input; lat val(int,cp_i32); rel isc(int,int); rel ist(int);
